@@ -6,9 +6,12 @@ LIBPATH = "lib.ukv"
 
 
 def key_bytes(spec) -> bytes:
-    """spec: "abc" (latin-1 text) or [prefix, total_len] (prefix padded with 'K')."""
+    """spec: "abc" (latin-1 text), [prefix, total_len] (prefix padded with 'K') or ["U", text, reps]
+    (text repeated, UTF-8 encoded: a key whose length in characters differs from its length in bytes)."""
     if isinstance(spec, str):
         return spec.encode("latin-1")
+    if len(spec) == 3 and spec[0] == "U":
+        return (spec[1] * spec[2]).encode("utf-8")
     prefix, total = spec
     b = prefix.encode("latin-1")
     if len(b) < total:
